@@ -2,11 +2,13 @@
 """adopt_round.py <seed_root> <offset> Cxx…: adopt every out/<k> of the given properties as Cxx-(k+offset)."""
 import os, re, subprocess, sys, json
 root, off = sys.argv[1], int(sys.argv[2])
-pkgdir = {"rawpanellib": ".", "gorwp": "./gorwp", "topology": "./topology", "monogfx": "./ibeam_lib_monogfx"}
+pkgdir = {"rawpanellib": ".", "gorwp": "./gorwp", "topology": "./topology", "monogfx": "./ibeam_lib_monogfx", "ibeam_lib_monogfx": "./ibeam_lib_monogfx"}
 for pid in sys.argv[3:]:
     for k in sorted(os.listdir(f"{root}/{pid}/out")):
         src = f"{root}/{pid}/out/{k}"
         if not os.path.exists(f"{src}/patch.diff"): continue
+        only = os.environ.get("ONLY")
+        if only and f"{pid}:{k}" not in only.split(","): continue
         gos = [f for f in os.listdir(src) if f.endswith("_test.go")]
         if not gos:
             print(pid, k, "NO _test.go demo:", os.listdir(src)); continue
